@@ -132,3 +132,5 @@ def run(r):
 def ft_of(payload):
     from props import c01
     return MG.ft_lit(c01.float_table(payload))
+    r.cov["explanation"] = ("Theorems: loads(dumps v) = v for every plain value tree through xdis.marsh's reader and through CPython's reader of every 3.x magic (Spec side). "
+                            "By correspondence only: that Model.Marsh.dumps is what xdis.marsh.dumps writes, and xdis.marsh.loads of the HOST's marshal.dumps output.")
